@@ -6,3 +6,6 @@ pub mod zones;
 pub mod rrsets;
 pub mod internet;
 pub mod zonefile;
+pub mod update_driver;
+pub mod updates;
+pub mod hier;
